@@ -582,6 +582,13 @@ func runC07(c *mc.Ctx) {
 				convs = append(convs, c07Conv{Data: mc.Hex(bytes.Repeat([]byte{f}, n)), From: 8, To: 5, Pad: pad})
 			}
 		}
+		// inputs longer than 255 groups (8-bit counters)
+		for _, n := range []int{254, 255, 256, 257, 300, 511, 512, 513} {
+			for _, f := range []byte{0, 1, 21, 31} {
+				convs = append(convs, c07Conv{Data: mc.Hex(bytes.Repeat([]byte{f}, n)), From: 5, To: 8, Pad: pad})
+				convs = append(convs, c07Conv{Data: mc.Hex(bytes.Repeat([]byte{f * 8}, n)), From: 8, To: 5, Pad: pad})
+			}
+		}
 		for from := uint8(1); from <= 8; from++ {
 			for to := uint8(1); to <= 8; to++ {
 				if (from == 8 && to == 5) || (from == 5 && to == 8) {
